@@ -25,7 +25,11 @@ def make_run(cfg):
     scripts = cfg["scripts"]
 
     class AnnDaemon(server.Daemon):
+        _persistent = {"DMON": b"d"}
+
         def annotations(self):
+            if cfg.get("daemon_ann") == "persistent":
+                return self._persistent        # an override may well hand out the same dict object every time
             return {"DMON": b"d"} if cfg.get("daemon_ann") else {}
 
     def run_fn(chooser):
@@ -55,6 +59,7 @@ def make_run(cfg):
             client_view = {}
             order = {}
             nocorr_requests = set()
+            noann_tags = set()
             client_addrs = {}      # client index -> local addresses of the connections it used
 
             def make_client(ci, script):
@@ -78,6 +83,10 @@ def make_run(cfg):
                             n += 1
                             reqi = ("c%d-%d" % (ci, n)).encode()
                             current_context.annotations = {"REQI": reqi}
+                            if step.endswith("!noann"):       # this request carries no annotations at all
+                                step = step.replace("!noann", "")
+                                current_context.annotations = {}
+                                noann_tags.add("c%d-%d" % (ci, n))
                             nocorr = step.endswith("!nocorr")      # this request carries no correlation id: the daemon assigns a fresh one
                             step = step.replace("!nocorr", "")
                             current_context.correlation_id = None if nocorr else uuid.UUID(int=(ci + 1) * 1000 + n)
@@ -165,7 +174,9 @@ def make_run(cfg):
             for rec in tgt.seen:
                 tag = rec["tag"]
                 base = tag[:-1] if rec["kind"] in ("ret_update", "plain") and tag[-1] in "ab" else tag
-                want_reqi = base.encode()
+                want_reqi = base.encode() if base not in noann_tags else None
+                if sorted(rec["annkeys"]) != (["REQI"] if want_reqi is not None else []):
+                    V("context-of-other-request|annotations|foreign-keys|%s" % srv, "method %s(%s) saw request annotations %r, its request carried %r" % (rec["kind"], tag, rec["annkeys"], ["REQI"] if want_reqi else []))
                 ci = int(base[1:].split("-")[0])
                 n = int(base.split("-")[1])
                 late = rec["kind"].endswith("-late")
@@ -277,6 +288,11 @@ def configs(quick):
     # (d) three clients
     out.append({"server": "multiplex", "pool": 4, "scripts": [["raise_after_set"], ["ow_set"], ["plain", "ping"]], "p": 1, "r": 1 if quick else 2, "horizon": 4000})
     out.append({"server": "multiplex", "pool": 4, "daemon_ann": True, "scripts": [["ret_assign", "plain"], ["raise_after_set", "plain"]], "p": 1, "r": 2, "horizon": 4000})
+    # (e) a daemon whose annotations() override returns one persistent dict; requests without any annotations, one of which marks its own in place
+    for server, pool in (("multiplex", 4), ("thread", 1)):
+        out.append({"server": server, "pool": pool, "sequential": True, "daemon_ann": "persistent", "scripts": [["ret_assign", "raise_after_set"], ["plain", "ping", "plain"]], "p": 1, "r": 1, "horizon": 4000})
+        out.append({"server": server, "pool": pool, "sequential": True, "scripts": [["tag_request!noann", "plain!noann"], ["plain!noann", "plain"]], "p": 1, "r": 1, "horizon": 4000})
+    out.append({"server": "thread", "pool": 4, "scripts": [["tag_request!noann", "plain!noann"], ["plain!noann", "tag_request"]], "p": 1, "r": 1, "horizon": 4000})
     return out
 
 
